@@ -35,6 +35,9 @@ PbText(c, v, r) ==
     \* "nullkey": the second value of the innermost level is null (a key value like any other; only drawn where the
     \* page_by column is displayed as cells, so that no heading text is in question)
     ELSE IF c.div = "nullkey" /\ v = c.nlev /\ i = 2 THEN "<null>"
+    \* "padkey": the innermost key values carry surrounding blanks (drawn, like "nullkey", only where the page_by column is
+    \* displayed as cells: the cell shows the value as it is)
+    ELSE IF c.div = "padkey" /\ v = c.nlev THEN "  " \o PbName(v, i) \o " "
     \* "resume": the value after the divider group has the text shown before it (X, -----, X, Y, ...)
     ELSE IF c.div = "resume" /\ v = c.nlev THEN (IF i = 2 THEN "-----" ELSE IF i >= 3 THEN PbName(v, i - 2) ELSE PbName(v, 1))
     \* "cycle": no dividers; at every level two names alternate, so a key comes back after another one (A, B, A)
